@@ -128,6 +128,19 @@ ROUND3 = {
  "C20": "Also: damaged (not truncated) keytab and ccache files - every 16/32-bit field rewritten with boundary and in-file lengths, ~40 000 per file -, malformed Basic header values that contain the password, keytabs with foreign-realm and case-variant entries with Diagnostics before and after login, and a kpasswd reply that reflects the request's own KRB-PRIV.",
 }
 
+# what the fourth round added (ten properties)
+ROUND4 = {
+ "C02": "Fourth round: the process's FIRST verifications made concurrently in 48 / 600 fresh child processes (at-most-once oracle plus race reports of the child), clean-up racing presentations for a client whose earlier entries have all expired, and histories that use several MaxClockSkew values in one process.",
+ "C03": "Fourth round: INVALID and other ticket flags with and without starttime, authenticators and tickets sealed under other key usages, replay histories across clean-up sweeps under the virtual clock.",
+ "C09": "Fourth round: crowded keytabs (same name in other realms, previous key version, other etypes) with replies sealed under those keys; correct replies and KRB-ERRORs padded to exact sizes up to 4096 bytes over UDP.",
+ "C12": "Fourth round: udp_preference_limit 0, 2, 3, the request size +-1, 1465 and a seeded sample; kpasswd exchanges (RFC 3244 server on the reference encoder) for clients inside and outside default_realm.",
+ "C13": "Fourth round: every time-stamping constructor at boundary instants of the virtual clock (last and first half microsecond of a second, ends of minutes/days/years, around 2^31): Microseconds in 0..999999, whole UTC seconds.",
+ "C17": "Fourth round: call histories on shared key octets - every order of the etypes of equal key size on one key, all four usages.",
+ "C18": "Fourth round: periodic servers (cycles of 2-3 answers), URL host spellings (port, :80, rooted) through a dialer, services in a second realm by [domain_realm] and by KDC referral.",
+ "C19": "Fourth round: UserFlags patched against the SID arrays it describes; tickets whose AD-IF-RELEVANT containers hold the PAC alone, first among others or behind another element, several containers.",
+ "C20": "Fourth round: nine re-encodings of a reflected kpasswd request, 34 shapes of KDC pre-authentication hints x 6 etypes through GetKeyFromPassword, Client.Key, ASRep.DecryptEncPart and a login (leak scan only).",
+}
+
 NOT_YET = "check not built yet in this revision of /verif (construction in progress, see DESIGN.md section 9)"
 
 def main():
@@ -140,6 +153,8 @@ def main():
             tech, cat, text, note, ref = CHECKS[i]
             if i in ROUND3:
                 text = text.rstrip() + " " + ROUND3[i]
+            if i in ROUND4:
+                text = text.rstrip() + " " + ROUND4[i]
             checks.append({
                 "property_id": i,
                 "quick_cmd": f"./check {i} quick",
